@@ -30,6 +30,23 @@ Inductive ev :=
 | Timeout (i : nat)    (* the pending Do of exchange i gives up *)
 | Expire (atB : bool). (* CheckExpirations far in the future *)
 
+(* the script of a scenario with virtual time: the events above, the passing of d units of time
+   (nothing is swept), CheckExpirations(now) at one side *)
+Inductive tev :=
+| Ev (e : ev)          (* an event of the untimed script *)
+| Age (d : Z)          (* d units of time pass (nothing is swept) *)
+| Sweep (atB : bool).  (* CheckExpirations now *)
+
+(* the block-wise transfer timeout handed to blockwise.New (expiration), in units of virtual time:
+   what an endpoint stores for a request without a context deadline is valid that long *)
+Definition TRANSFER_TIMEOUT := 3600.
+
+(* request context deadlines (context.WithTimeout): exchange index -> time the application allows,
+   counted from the moment it starts the exchange; exchanges not listed have no deadline *)
+Definition deadlines := list (nat * Z).
+Fixpoint nassoc (l : deadlines) (i : nat) : option Z :=
+  match l with [] => None | (j, d) :: r => if Nat.eqb i j then Some d else nassoc r i end.
+
 Definition GET := 1. Definition POST := 2. Definition PUT := 3. Definition DELETE := 4.
 Definition Created := 65. Definition Deleted := 66. Definition Changed := 68. Definition Content := 69.
 Definition Continue := 95. Definition Incomplete := 136.
